@@ -46,12 +46,14 @@ def run(ctx):
         common.require_tlc_ok(ctx, ge, "GenExpr / Sound")
         gp = common.tlc(ctx, "GenProg", cfg="GenProg_s2", workers=8, timeout=3000)
         common.require_tlc_ok(ctx, gp, "GenProg / Sound")
+        gd = common.tlc(ctx, "GenData", cfg="GenData", workers=8, timeout=3000)
+        common.require_tlc_ok(ctx, gd, "GenData / Sound / NonExhaustiveRejected")
         sim_rows = []
         if n_sim:
             gs = common.tlc(ctx, "GenProg", cfg="GenProg_s3", workers=8, timeout=1500, simulate=n_sim, depth=14)
             sim_rows = gs["cases"]["CASE"]
     erows, prows = ge["cases"]["CASE"], gp["cases"]["CASE"]
-    universe = len(erows) + len(prows)
+    universe = len(erows) + len(prows) + len(gd["cases"]["CASE"])
 
     def pick(rows, n):
         # stratified by feature-tag set so that every operator / construct is represented
@@ -59,7 +61,7 @@ def run(ctx):
             return list(rows)
         buckets = {}
         for r in rows:
-            key = tuple(sorted(t for t in r["feats"] if t.startswith(("bin:", "un:", "call:", "index:", "slice-shape:", "stmt:", "grp:"))))
+            key = tuple(sorted(t for t in r["feats"] if t.startswith(("bin:", "un:", "call:", "index:", "slice-shape:", "stmt:", "grp:", "match:", "pat:", "arm:", "data:", "subject:"))))
             buckets.setdefault(key, []).append(r)
         keys = sorted(buckets)
         rnd.shuffle(keys)
@@ -83,10 +85,13 @@ def run(ctx):
             uniq_sim.append(r)
     cases = [pipeline.expr_case(r, k) for k, r in enumerate(pick(erows, n_expr))]
     cases += [pipeline.prog_case(r, k) for k, r in enumerate(pick(prows, n_prog))]
+    drows = gd["cases"]["CASE"]
+    cases += [pipeline.data_case(r, k) for k, r in enumerate(pick(drows, 110 if ctx.quick else 1396))]
     cases += [pipeline.prog_case(r, k, prefix="s") for k, r in enumerate(uniq_sim[:n_sim])]
     with ctx.timed("self_check"):
         rej = pipeline.self_check_exprs(ctx, [c for c in cases if c["kind"] == "expr"])
         rej.update(pipeline.self_check_progs(ctx, [c for c in cases if c["kind"] == "prog"]))
+        rej.update(pipeline.self_check_data(ctx, [c for c in cases if c["kind"] == "data"]))
     for cid, err in rej.items():
         c = next(x for x in cases if x["id"] == cid)
         ctx.fail("parse:rendered-program-rejected", {"src": c["body"], "err": err}, "a documented form does not parse", tags=c["tags"])
@@ -98,7 +103,7 @@ def run(ctx):
     for c, e in zip(cases, ev):
         sym = e["symptom"]
         stats[e["stage"] + (":" + sym if sym else ":ok")] = stats.get(e["stage"] + (":" + sym if sym else ":ok"), 0) + 1
-        src = " ; ".join(c["body"][-4:]) if c["kind"] == "prog" else c["body"][-1]
+        src = " ; ".join(c["body"][-4:]) if c["kind"] in ("prog", "data") else c["body"][-1]
         if e["stage"] in ("ran", "abort"):
             n_ran += 1
             distinct.add(src)
